@@ -5,6 +5,7 @@
   literal's decimal value for every literal (given the `strtod` assumption for the slow path).
 -/
 import Edn.Proofs.Float
+import Edn.Proofs.DoubleSpecAux3
 
 namespace Edn.Proofs
 open Edn.Model Edn.Spec
@@ -25,8 +26,10 @@ def FloatText (cfg : Cfg) (text : Bytes) : Prop :=
 /-- for every float literal: the double returned is the one nearest to the literal's exact
     decimal value (ties to even), whichever path is taken -/
 theorem parseDouble_correctly_rounded (cfg : Cfg) (text : Bytes) (h : FloatText cfg text) :
-    parseDouble cfg text = (let p := decimalParts text; withSign p.1 (ofDec p.2.1 p.2.2)) := by
-  sorry
+    parseDouble cfg text = (let p := decimalParts text; withSign p.1 (ofDec p.2.1 p.2.2)) :=
+  -- only the first component of `FloatText` (no underscore without the experimental flag) is
+  -- needed: the two scanners stop at the same bytes whatever the shape of the text
+  DoubleSpecAux.parseDouble_of_noUnderscore cfg text h.1
 
 /-- two literals denoting the same real number read as the same double -/
 theorem same_value_same_double (cfg : Cfg) (t1 t2 : Bytes) (h1 : FloatText cfg t1) (h2 : FloatText cfg t2)
@@ -34,6 +37,11 @@ theorem same_value_same_double (cfg : Cfg) (t1 t2 : Bytes) (h1 : FloatText cfg t
     (hv : ∃ k : Nat, ((decimalParts t1).2.1 = (decimalParts t2).2.1 * 10 ^ k ∧ (decimalParts t1).2.2 + k = (decimalParts t2).2.2) ∨
                      ((decimalParts t2).2.1 = (decimalParts t1).2.1 * 10 ^ k ∧ (decimalParts t2).2.2 + k = (decimalParts t1).2.2)) :
     parseDouble cfg t1 = parseDouble cfg t2 := by
-  sorry
+  rw [parseDouble_correctly_rounded cfg t1 h1, parseDouble_correctly_rounded cfg t2 h2]
+  simp only []
+  rw [hs]
+  obtain ⟨k, ⟨hm, he⟩ | ⟨hm, he⟩⟩ := hv
+  · rw [hm, ← he, DoubleSpecAux.ofDec_shift]
+  · rw [hm, ← he, DoubleSpecAux.ofDec_shift]
 
 end Edn.Proofs
